@@ -99,10 +99,10 @@ least one more byte. (Full statement without the hypothesis is false: a line con
 exactly `p` comes back empty, and a line not starting with `p` gets `p` added — see the examples.) -/
 theorem C07_indent_roundtrip (f p : Txt) (hp : ∀ b ∈ p, isBlank b = true)
     (hl : ∀ l ∈ splitInclusive f, body l = [] ∨ ∃ r, r ≠ [] ∧ body l = p ++ r) :
-    applyBaseIndent (stripBaseIndent f p) p = f := by
+    applyBaseIndent (stripBaseIndent f p []) p [] = f := by
   by_cases hpe : p = []
   · subst hpe
-    have : stripBaseIndent f [] = f := by
+    have : stripBaseIndent f [] [] = f := by
       rw [stripBaseIndent_eq, flatten_map_id _ _ (fun l _ => by simp [stripLine, stripPrefix, body_append_ending]),
         flatten_splitInclusive]
     simp [applyBaseIndent, this]
@@ -116,7 +116,7 @@ theorem C07_indent_roundtrip (f p : Txt) (hp : ∀ b ∈ p, isBlank b = true)
 
 /-- the other direction holds for every text: stripping the indent that was just applied -/
 theorem C07_strip_apply (t p : Txt) (hp : ∀ b ∈ p, isBlank b = true) :
-    stripBaseIndent (applyBaseIndent t p) p = t := by
+    stripBaseIndent (applyBaseIndent t p []) p [] = t := by
   by_cases hpe : p = []
   · subst hpe
     simp only [applyBaseIndent, List.isEmpty_nil, if_true]
@@ -132,32 +132,50 @@ theorem C07_strip_apply (t p : Txt) (hp : ∀ b ∈ p, isBlank b = true) :
 
 /-- **token preservation of the text pipeline.** Whatever the fragment formatter `fmt` is, as long
 as it keeps the non-blank bytes of the dedented fragment, the document obtained by splicing
-`apply_base_indent(fmt(strip_base_indent(fragment, p)), q)` over `[s, e)` has the same non-blank
+`apply_base_indent(fmt(strip_base_indent(fragment, p, k1)), q, k2)` over `[s, e)` has the same non-blank
 bytes as the original (for blank-only indent prefixes `p`, `q` — what `line_indent_prefix` and
 `indent_str().repeat(n)` produce). No byte of code is lost or invented by the helpers. -/
-theorem C07_pipeline_nonblank (t p q : Txt) (s e : Nat) (fmt : Txt → Txt) (hs : s ≤ e)
+theorem C07_pipeline_nonblank (t p q : Txt) (k1 k2 : List Nat) (s e : Nat) (fmt : Txt → Txt) (hs : s ≤ e)
     (hp : ∀ b ∈ p, isBlank b = true) (hq : ∀ b ∈ q, isBlank b = true)
     (hfmt : ∀ x, nonBlank (fmt x) = nonBlank x) :
-    nonBlank (splice t s e (applyBaseIndent (fmt (stripBaseIndent ((t.drop s).take (e - s)) p)) q))
+    nonBlank (splice t s e (applyBaseIndent (fmt (stripBaseIndent ((t.drop s).take (e - s)) p k1)) q k2))
       = nonBlank t := by
   have h := C07_splice_same t s e hs
   have : nonBlank (splice t s e ((t.drop s).take (e - s))) = nonBlank t := by rw [h]
   rw [← this]
   simp only [splice, nonBlank_append]
-  rw [nonBlank_applyBaseIndent _ q hq, hfmt, nonBlank_stripBaseIndent _ p hp]
+  rw [nonBlank_applyBaseIndent _ q k2 hq, hfmt, nonBlank_stripBaseIndent _ p k1 hp]
 
 /-! Non-vacuity and the cases outside `indent_roundtrip`'s hypothesis (tests, labelled as such). -/
 -- "  a\n\n  b" with p = "  ": hypothesis holds, round trip is the identity
-example : applyBaseIndent (stripBaseIndent [32, 32, 97, 10, 10, 32, 32, 98] [32, 32]) [32, 32]
+example : applyBaseIndent (stripBaseIndent [32, 32, 97, 10, 10, 32, 32, 98] [32, 32] []) [32, 32] []
     = [32, 32, 97, 10, 10, 32, 32, 98] := by decide
 -- a line that is exactly the prefix comes back empty
-example : applyBaseIndent (stripBaseIndent [32, 32, 10, 32, 32, 98] [32, 32]) [32, 32] = [10, 32, 32, 98] := by decide
+example : applyBaseIndent (stripBaseIndent [32, 32, 10, 32, 32, 98] [32, 32] []) [32, 32] [] = [10, 32, 32, 98] := by decide
 -- a line that does not start with the prefix gets it added
-example : applyBaseIndent (stripBaseIndent [97, 10] [32, 32]) [32, 32] = [32, 32, 97, 10] := by decide
+example : applyBaseIndent (stripBaseIndent [97, 10] [32, 32] []) [32, 32] [] = [32, 32, 97, 10] := by decide
 example : expandToFullLines [97, 10, 98, 99, 10, 100] 3 3 = (2, 5) := by decide
 example : lineIndentPrefix [97, 10, 32, 9, 98, 10] 2 = [32, 9] := by decide
 example : clampRange 7 3 5 = (5, 5) := by decide
 -- \r\n endings are kept
-example : stripBaseIndent [32, 97, 13, 10, 32, 98] [32] = [97, 13, 10, 98] := by decide
+example : stripBaseIndent [32, 97, 13, 10, 32, 98] [32] [] = [97, 13, 10, 98] := by decide
+-- `x=[[a` / ` b]]` re-indented by a tab: with the second line start (offset 6) kept, the inside of the long
+-- string is untouched; without it (the behaviour before fix ac5fa6f) the string content changes
+example : applyBaseIndent [120, 61, 91, 91, 97, 10, 32, 98, 93, 93] [9] [6] = [9, 120, 61, 91, 91, 97, 10, 32, 98, 93, 93] := by decide
+example : applyBaseIndent [120, 61, 91, 91, 97, 10, 32, 98, 93, 93] [9] [] = [9, 120, 61, 91, 91, 97, 10, 9, 32, 98, 93, 93] := by decide
+
+/-- lines whose start offsets are all listed in `keep` are copied verbatim: keeping every line start
+leaves the text unchanged, whatever the prefix -/
+theorem C07_keep_all_unchanged (t p keep : Txt)
+    (h : ∀ pre l post, splitInclusive t = pre ++ l :: post → keep.contains pre.flatten.length = true) :
+    stripBaseIndent t p keep = t ∧ applyBaseIndent t p keep = t := by
+  have hk := mapLinesFrom_keep_all keep
+  constructor
+  · unfold stripBaseIndent mapLines
+    rw [hk _ 0 _ (by simpa using h), flatten_splitInclusive]
+  · unfold applyBaseIndent mapLines
+    split
+    · rfl
+    · rw [hk _ 0 _ (by simpa using h), flatten_splitInclusive]
 
 end RangeText
